@@ -71,7 +71,37 @@ func simple(rule string, variant string, shards int) *plan {
 	}
 }
 
+func std(rule string, shards int, req func(c, m map[string]int64) []string, extra ...string) *plan {
+	return &plan{
+		rule:        rule,
+		assumptions: append(append([]string{}, extra...), commonAssumptions...),
+		jobs: func(tier string) []*job {
+			return []*job{{variant: "plain", mode: "main", shards: shards, maxResume: 5}}
+		},
+		require: func(tier string, c, m map[string]int64, s map[string]map[string]struct{}) []string {
+			if req == nil {
+				return nil
+			}
+			return req(c, m)
+		},
+	}
+}
+
 func init() {
+	plans["C06"] = std("every input is parsed by Parse and ParseND, copy and no-copy, once with AVX512F cleared in the cpuid feature set (AVX2 kernels) and once with it set (AVX-512 kernels); outcomes, Tape words and Strings.B bytes are compared. Inputs: token-sequence enumeration (<=4), number/atom/string byte tables, alignment carriers, tail sweeps (every length with interesting bytes in the last 64 positions), carry sweeps (quotes, backslash runs, pseudo-structural predecessors straddling block boundaries), valid documents, NDJSON, corpus mutants, random bytes. Distinct non-trivial = inputs on which at least one call got past stage 1 on both kernels (accepted), by content hash", 16,
+		func(c, m map[string]int64) []string {
+			return append(need(c, "both_accepted", 5000), need(c, "both_rejected", 100000)...)
+		})
+	plans["C08"] = std("NDJSON inputs: exhaustive sequences of <=5 lines over {valid object, valid array, object with escaped LF, empty, blanks, two halves of a split document} x {LF,CRLF} x {final newline or not}; random sequences of valid/invalid/blank lines with one bad line at first/middle/last position, leading/trailing blank runs, mixed CRLF; root boundaries at every offset mod 64, at index-buffer ordinals 1408k+-6 and total sizes 8192+-70; thousands of lines. Oracle: Parse on each non-blank line (acceptance) and the reference tree of each line (roots, in order), read back through AdvanceInto and ParsedJson.ForEach; avx2/avx512 x copy/no-copy. Distinct non-trivial = inputs with >= 2 lines of which >= 1 non-blank, by content hash", 16,
+		func(c, m map[string]int64) []string {
+			out := need(c, "inputs_async_path", 100)
+			if m["max_documents_per_input"] < 1000 {
+				out = append(out, "max_documents_per_input < 1000")
+			}
+			return out
+		})
+	plans["C18"] = std("finite float64 values placed with SetFloat into a parsed 512-element template and rendered by Iter.MarshalJSON and Iter.StringCvt; compared byte for byte with encoding/json.Marshal, and independently: strconv.ParseFloat(text) gives the identical bits, the number of significant digits equals that of strconv.FormatFloat(f,'e',-1,64), exponent form exactly outside [1e-6,1e21). Inputs: fixed hard cases, 10^k for k=-323..308 with both neighbours, the 1e-6/1e21 switches +-3 ulps, every binade (min, max, +-1, random), all 52 subnormal leading-bit positions, integers up to 2^63 scaled by powers of ten, 15-17 digit decimals, uniformly random bit patterns; NaN/+-Inf must give an error. Distinct non-trivial = distinct finite bit patterns", 16,
+		func(c, m map[string]int64) []string { return need(c, "non_finite_rejected", 3) })
 	plans["C02"] = &plan{
 		rule:        "valid documents from the structured generator (sizes 2 B..8 MiB, depth to 100000, fan-out, duplicate/empty/equal-length keys, escapes, multi-byte UTF-8, long strings, three white-space layouts), boundary families (probe holding every token kind slid across index-buffer ordinals 1408k), documents needing 1..100+ index buffers, sizes 8192+-70, corpus files; each parsed under avx2/avx512 x copy/no-copy and read back through the AdvanceInto, Advance/NextElementBytes, ForEach/AdvanceIter, Object.Parse/Elements and Interface routes, compared with the reference tree. Distinct non-trivial = accepted documents with >= 3 values compared by >= 2 walkers, by content hash",
 		assumptions: commonAssumptions,
